@@ -6,7 +6,8 @@ from vlib import build, runner
 mod = importlib.import_module("props." + sys.argv[1])
 first, n = int(sys.argv[2]), int(sys.argv[3])
 tree = sys.argv[4] if len(sys.argv) > 4 else "plain"
-recs = runner.pmap(mod.worker, [(first + i, build.souffle_bin(tree)) for i in range(n)], nproc=16)
+binary = tree if "/" in tree else build.souffle_bin(tree)
+recs = runner.pmap(mod.worker, [(first + i, binary) for i in range(n)], nproc=16)
 st = collections.Counter(r.get("status") for r in recs)
 print(st, "nontrivial", sum(1 for r in recs if r.get("nontrivial")))
 print("skips", collections.Counter(r.get("reason") for r in recs if r.get("status") == "skip"))
